@@ -208,6 +208,8 @@ def h_chain(case, pick, st, stats):
             continue                                 # no such field anywhere in the type: a different question (KeyError)
         if op == "concatperm" and not (ty.startswith("{") and len(ak.fields(A)) >= 2):
             continue                                 # needs named records with two or more fields at the top
+        if op == "rt_arrow" and "union" in ty:
+            continue                                 # Arrow unions: pyarrow's union API drifted away from this version (not judged, as in C16's own phases)
         if op == "concat2":
             try:
                 B = ak.Array(ext._box(_fix(json.loads(json.dumps(a.pop("other"))))))
